@@ -6,7 +6,7 @@ context-manager classes, the four gate functions) and every gate site reached th
 History: a seeded, nested program of enable/disable calls, `with enable():` /
 `with disable():` blocks (depth <= 4) whose bodies may raise at a drawn position (a
 harness exception or the GuppyError of a rejected check, caught at a drawn outer level),
-interleaved with checks of probe programs (35 gated constructs x 11 contexts + control,
+interleaved with checks of probe programs (35 gated constructs x 16 contexts incl. unreachable code + control,
 each optionally carrying a second ordinary mistake before / inside / after the construct so
 that the check fails part-way through CFG construction, type or linearity checking).
 Reference model: an explicit save/restore stack.  Invariants after every op.
@@ -28,14 +28,14 @@ ASSUMPTIONS = [
     "context managers are used in the `with enable_experimental_features():` idiom (constructed and entered in one step); the reference restores the value seen at construction",
     "a probe program that carries a second, ordinary mistake must be rejected in both gate states; with the gate closed either of its two errors may be reported, with the gate open never the experimental one",
     "a gated program counts as correctly rejected when check() raises GuppyError carrying ExperimentalFeatureError, or UnsupportedError('Capturing closures') for closures (the code's documented behaviour)",
-    "gated constructs in unreachable code are not generated (the checker does not visit dead code; the property does not say it must)",
+    "probe programs with the gated construct in unreachable code (after a return at the top level, after a return / break inside a nested block) carry no second mistake: whether mistakes in dead code are reported is not part of this property",
     "/repo sources run on newer dependency versions through the 3-point compat shim (verif/compat)",
 ]
 MANIFEST = {
     "level": LEVEL,
     "technique": "deterministic simulation: seeded histories of nested enable/disable context managers with injected exceptional exits, checked against a save/restore stack model",
-    "text": "Two parts. Exhaustive table: every gated construct (35, incl. list/tensor constructs nested inside generator expressions, tuples, conditional expressions, generic calls and arguments of overloaded calls) in every context (11: top level, if/else, loops, nested functions incl. under if/for and two levels deep, callee, struct method), checked and compiled with the gate closed / open / closed again through the context managers. Seeded exploration of histories (nesting <= 4, exceptions injected at drawn positions and caught at drawn levels, probe programs optionally carrying a second ordinary mistake, definitions created early or at first check, leaf ops optionally issued from another caller thread or a fresh contextvars context) over the real flag, context managers and all gate sites; after every op the flag equals the reference stack model and every probe program is accepted iff ungated or the model says the gate is open. Sampling, not proof.",
-    "note": "Trusted: the reference stack model (20 lines), the probe-program table (validated by bin/c33_table.py: all 385 gated kind x context pairs are rejected closed / accepted open, and all 7 fault kinds x 3 positions of each are rejected in both gate states, 14058 checks, on the unchanged tree), the compat shim.",
+    "text": "Two parts. Exhaustive table: every gated construct (35, incl. list/tensor constructs nested inside generator expressions, tuples, conditional expressions, generic calls and arguments of overloaded calls) in every context (16: top level, if/else, loops, nested functions incl. under if/for and two levels deep, callee, struct method, struct methods first reached through a probe, unreachable code after a jump at the top level and inside nested blocks), checked and compiled with the gate closed / open / closed again through the context managers. Seeded exploration of histories (nesting <= 4, exceptions injected at drawn positions and caught at drawn levels, probe programs optionally carrying a second ordinary mistake, definitions created early or at first check, leaf ops optionally issued from another caller thread or a fresh contextvars context) over the real flag, context managers and all gate sites; after every op the flag equals the reference stack model and every probe program is accepted iff ungated or the model says the gate is open. Sampling, not proof.",
+    "note": "Trusted: the reference stack model (20 lines), the probe-program table (validated by bin/c33_table.py: all 560 gated kind x context pairs are rejected closed / accepted open, and all 7 fault kinds x 3 positions of each (reachable contexts) are rejected in both gate states, 17046 checks, on the repaired tree), the compat shim.",
     "design_ref": "DESIGN.md section 3 (C33)",
 }
 
